@@ -28,7 +28,10 @@ package riscv
 // and input lengths 0..6 (n bytes, all symbolic). p is the parser built by
 // the real NewParser for that configuration. word32(bs) is the little-endian
 // word in bs[0:4]; rv_defined / rv_named consult the RISC-V reference table
-// (mask/match per mnemonic, reserved fields zero).
+// (mask/match per mnemonic, reserved fields zero). model_valid(ins): the
+// instruction model passes model.Instruction.Validate (known type flags, a
+// non-zero length, no nil effect, platform details present) - with [short] and
+// [length] this is the contract of the parser.Parser interface (property C21).
 
 //@ func (Parser).Parse
 //@   enum xlen in XLENS, extm in BOOL, exta in BOOL, n in PARSELENS
@@ -37,6 +40,7 @@ package riscv
 //@   ensures[accepts-exactly] n >= 4 ==> ((result1 == nil) == rv_defined(xlen, extm, exta, word32(bs)))
 //@   ensures[names] n >= 4 && result1 == nil ==> rv_named(xlen, extm, exta, word32(bs), insname(result0))
 //@   ensures[length] result1 == nil ==> result0.ByteLen == 4
+//@   ensures[model-valid] result1 == nil ==> model_valid(result0)
 
 // String is checked for every entry of the six instruction tables, with i an
 // instruction of that entry (i.value matches its opcode pattern).
